@@ -161,6 +161,11 @@ func (f *frame) seenOverride(li *loopInfo, st *State, ov map[string]SV) {
 				if rng, ok := nx.Iter.(*ssa.Range); ok {
 					if h := f.c.g.seenHeap(rng); h != "" && nx.Block() == li.header {
 						ov["#seen"] = SV{Term: st.Heap(h), Typ: types.Typ[types.Bool]}
+						n, key, pos := f.c.g.seenSeqHeaps(rng)
+						kt := rng.X.Type().Underlying().(*types.Map).Key()
+						ov["#seenN"] = SV{Term: st.Heap(n), Typ: types.Typ[types.Int]}
+						ov["#seenKey"] = SV{Term: st.Heap(key), Typ: kt}
+						ov["#seenPos"] = SV{Term: st.Heap(pos), Typ: kt}
 					}
 				}
 			}
